@@ -66,7 +66,7 @@ func verifC01(maxMain, maxSide, maxBatch int, prune bool) {
 		for i := 0; i < n; i++ {
 			b := c.newBlock(pn, true)
 			b.V2 = &types.V2BlockData{Height: ps.Index.Height + 1}
-			ps = stubApplyHeader(ps, b.Header(), b.Timestamp)
+			ps, _ = stubApplyBlock(ps, b, consensus.V1BlockSupplement{}, b.Timestamp)
 			absW.validated[b.Nonce] = true // validated by the caller, by contract
 			batch = append(batch, b)
 			states = append(states, ps)
@@ -180,4 +180,65 @@ func VerifH_C01_resubmit() {
 		}
 	}
 	c.checkLinked("post")
+}
+
+// VerifH_C01_prevalidated_known: a v2 side block first arrives through
+// AddBlocks (stored with a header-derived state, not adopted) and later, with
+// a child, through AddValidatedV2Blocks: whichever chain ends up best, every
+// best-chain block's stored state is the applied one and the audit holds.
+//
+//verif:harness prop=C01,C04 tier=quick replay=interp z3timeout=400 require=adopted,kept bounds="main chain of 1..2 v2 blocks; a side block on genesis or on the first main block delivered by AddBlocks, then delivered again with one child by AddValidatedV2Blocks; work symbolic"
+func VerifH_C01_prevalidated_known() {
+	c := newAbsChain()
+	v2 := func(b types.Block) types.Block {
+		b.V2 = &types.V2BlockData{Height: c.height[b.Nonce]}
+		return b
+	}
+	nMain := vapi.Int("main", 1, 2)
+	prev := uint64(0)
+	var main []types.Block
+	for i := 0; i < nMain; i++ {
+		b := v2(c.newBlock(prev, true))
+		vapi.Assert("build.main", c.m.AddBlocks([]types.Block{b}) == nil)
+		main = append(main, b)
+		prev = b.Nonce
+	}
+	forkAt := uint64(0)
+	if nMain == 2 && vapi.Bool("fork-on-first") {
+		forkAt = main[0].Nonce
+	}
+	side := v2(c.newBlock(forkAt, true))
+	pre := c.audit()
+	vapi.Assert("build.side", c.m.AddBlocks([]types.Block{side}) == nil)
+	mid := c.audit()
+	if mid.tip != pre.tip {
+		return // the side block alone was adopted: not the scenario
+	}
+	child := v2(c.newBlock(side.Nonce, true))
+	absW.validated[side.Nonce], absW.validated[child.Nonce] = true, true
+	ps, ok := c.m.State(absID(forkAt))
+	vapi.Assert("build.fork-state", ok)
+	s1, _ := stubApplyBlock(ps, side, consensus.V1BlockSupplement{}, side.Timestamp)
+	s2, _ := stubApplyBlock(s1, child, consensus.V1BlockSupplement{}, child.Timestamp)
+	err := c.m.AddValidatedV2Blocks([]types.Block{side, child}, []consensus.State{s1, s2})
+	vapi.Assert("known.no-error", err == nil)
+	post := c.audit()
+	if post.tip != mid.tip {
+		vapi.Reach("adopted")
+		vapi.Assert("known.adopted-tip", post.tip.ID == absID(child.Nonce))
+	} else {
+		vapi.Reach("kept")
+	}
+	c.checkLinked("known")
+	// the stored states are the ones the caller validated
+	got1, ok1 := c.m.State(absID(side.Nonce))
+	vapi.Assert("known.stored-state-is-the-validated-one", ok1 && got1.Elements.NumLeaves == s1.Elements.NumLeaves)
+	// a subscriber following from the fork point is handed the same states
+	if post.tip.ID == absID(child.Nonce) {
+		_, caus, err := c.m.UpdatesSince(types.ChainIndex{Height: c.height[forkAt], ID: absID(forkAt)}, 10)
+		vapi.Assert("known.follow-no-error", err == nil && len(caus) == 2)
+		if err == nil && len(caus) == 2 {
+			vapi.Assert("known.follow-carries-the-validated-states", caus[0].State.Elements.NumLeaves == s1.Elements.NumLeaves && caus[1].State.Elements.NumLeaves == s2.Elements.NumLeaves)
+		}
+	}
 }
